@@ -478,7 +478,9 @@ def model_decl(index, models, ci, summ=None):
             if isinstance(x, ast.Subscript) and ast.unparse(x.value).split(".")[-1] == "Annotated" and isinstance(x.slice, ast.Tuple):
                 meta += [ast.unparse(y) for y in x.slice.elts[1:]
                          if not (isinstance(y, ast.Call) and ast.unparse(y.func).split(".")[-1] == "Field"
-                                 and all(k.arg in CONSTRAINT_KEYS for k in y.keywords) and not y.args)]  # (constraints: compared below)
+                                 and all(k.arg in CONSTRAINT_KEYS for k in y.keywords) and not y.args)  # (constraints: compared below)
+                         and not (isinstance(y, ast.Call) and ast.unparse(y.func).split(".")[-1] in ("AfterValidator", "BeforeValidator", "PlainValidator")
+                                  and len(y.args) == 1 and isinstance(y.args[0], (ast.Name, ast.Attribute)))]  # (validators: read as hooks / by the acceptance rules)
         fields[f.name] = {"shape": _shape_json(f.shape), "meta": meta,
                           "constraints": {k: _const_of(v, index, f.owner.module) for k, v in f.field_kwargs.items() if k in CONSTRAINT_KEYS},
                           "default": None if f.default is None else _const_of(f.default, index, f.owner.module),
